@@ -104,14 +104,16 @@ def LC_HEAD(prefix):
         C(prefix + ".no_pending_envelope", "C01 C02", "ph_no_pending_envelope(actor.mon())"),
         C(prefix + ".no_pending_run_err", "C04 C05", "ph_no_pending_run_err(actor.mon())"),
         C(prefix + ".not_mid_idle", "C08", "ph_not_mid_idle(actor.mon())"),
-        C(prefix + ".not_killed_yet", "C04 C05 C06", "!killed"),
-        C(prefix + ".idle_flag_tracks_ok_false", "C08", "idle_flag_inv(actor, idle_enabled)"),
+        C(prefix + ".not_killed_yet", "C04 C05 C06", "!$killed"),
+        C(prefix + ".idle_flag_tracks_ok_false", "C08", "idle_flag_inv(actor, $idle)"),
     ]
 SPECS["actor.rs::run_actor_lifecycle"] = dict(
     attrs=["#[verifier::exec_allows_no_decreases_clause]"],
     select_carrier="actor",
     dyn_calls={"handle_message": "vx_dyn__handle_message"},
     raii={"init:MessageProcessingGuard::new(": "drop__MessageProcessingGuard"},
+    # the two loop-carried flags are found by what they are initialised from, not by their names
+    binders={"killed": r"let\s+mut\s+(\w+)\s*=\s*false\s*;", "idle": r"let\s+mut\s+(\w+)\s*=\s*true\s*;"},
     requires=[
         C("lifecycle.pre.mailbox_is_refs_mailbox", "C01 C02", "receiver.chan() == actor_ref.mbx_chan()"),
         C("lifecycle.pre.control_is_refs_control", "C06", "terminate_receiver.chan() == actor_ref.ctl_chan()"),
@@ -132,7 +134,7 @@ SPECS["actor.rs::run_actor_lifecycle"] = dict(
             invariant=[C("lifecycle.inv.started", "C04 C05", "T::start_spec(args, actor_ref) is Ok")] + LC_INV_CH + LC_OKS("lifecycle.inv", "actor.mon()"),
             ensures=[
                 C("lifecycle.loop_exit.stopped_ok", "C04 C05 C07",
-                  "actor.mon().bad || (actor.mon().ph matches Ph::Stopped(k, None, c) && k == killed && !(c is RunErr))"),
+                  "actor.mon().bad || (actor.mon().ph matches Ph::Stopped(k, None, c) && k == $killed && !(c is RunErr))"),
             ],
         ),
         "select#1": dict(
@@ -140,16 +142,16 @@ SPECS["actor.rs::run_actor_lifecycle"] = dict(
             invariant=[
                 C("lifecycle.select.inv.control_branch_unconditional", "C06 C07 C08", "__sel1_g0"),
                 C("lifecycle.select.inv.mailbox_branch_unconditional", "C01 C02 C07 C08", "__sel1_g1"),
-                C("lifecycle.select.inv.idle_guard_is_flag", "C08", "__sel1_g2 == idle_enabled"),
+                C("lifecycle.select.inv.idle_guard_is_flag", "C08", "__sel1_g2 == $idle"),
             ] + LC_INV_CH + LC_OKS("lifecycle.select.inv", "actor.mon()"),
             ensures=[
                 C("lifecycle.select.control_branch_fired_matches_monitor", "C06 C07", "sel_post_b0(actor, __sel1_out)"),
                 C("lifecycle.select.mailbox_branch_fired_matches_monitor", "C01 C02", "sel_post_b1(actor, __sel1_out)"),
                 C("lifecycle.select.taken_message_is_of_this_mailbox", "C01 C07", "sel_post_b1_fits(actor, __sel1_out)"),
                 C("lifecycle.select.idle_branch_fired_matches_monitor", "C08 C04", "sel_post_b2(actor, __sel1_out)"),
-                C("lifecycle.select.idle_only_if_enabled", "C08", "__sel1_out is B2 ==> idle_enabled"),
+                C("lifecycle.select.idle_only_if_enabled", "C08", "__sel1_out is B2 ==> $idle"),
                 C("lifecycle.select.idle_off_tracked", "C08",
-                  "actor.mon().bad || (if __sel1_out matches Out3::B2(Ok(false)) { idle_enabled && actor.mon().idle_off } else { idle_enabled == !actor.mon().idle_off })"),
+                  "actor.mon().bad || (if __sel1_out matches Out3::B2(Ok(false)) { $idle && actor.mon().idle_off } else { $idle == !actor.mon().idle_off })"),
             ],
         ),
     },
